@@ -17,6 +17,20 @@ import (
 // ChildLoop. If the child dies or hangs while an item is in flight, that item gets a Result with
 // Key "crash"/"hang" (Msg holds the tail of stderr) and a new child continues with the next item.
 // Results are returned in item order.
+// SuperviseRetry is Supervise for drivers whose items are finite by construction: an item that did not answer in time (the
+// machine may be loaded) is run again on its own with five times the limit; only what does not end then is a "hang".
+func SuperviseRetry(childCmd string, args []string, items []json.RawMessage, perItem time.Duration, workers int) []Result {
+	results := Supervise(childCmd, args, items, perItem, workers)
+	for i := range results {
+		if r := &results[i]; !r.OK && r.Key == "hang" {
+			again := Supervise(childCmd, args, []json.RawMessage{items[i]}, 5*perItem, 1)
+			again[0].ID = r.ID
+			results[i] = again[0]
+		}
+	}
+	return results
+}
+
 func Supervise(childCmd string, args []string, items []json.RawMessage, perItem time.Duration, workers int) []Result {
 	results := make([]Result, len(items))
 	done := make([]bool, len(items))
